@@ -217,7 +217,11 @@ var profile = sim.Profile{
 // so that a replay uses the same), so that blocks fall out of the cache while they are still waiting to be written
 // and reorganisations reach below what is cached.
 func optsFor(c sim.Case) env.Options {
-	return env.Options{MaxCached: []int{0, 0, 0, 2, 3, 5}[(len(c.Ops)+c.Params.Prefix)%6]}
+	o := env.Options{MaxCached: []int{0, 0, 0, 2, 3, 5}[(len(c.Ops)+c.Params.Prefix)%6]}
+	if (len(c.Ops)/2+c.Params.Prefix)%2 == 1 { // UTXO callbacks installed, as in the client while its wallet is on
+		o.UTXOCallbacks = env.ObserverCallbacks()
+	}
+	return o
 }
 
 func TestTree(t *testing.T) {
